@@ -223,7 +223,9 @@ Pick(S, k) == IF k = 0 \/ S = {} THEN <<>>
 Stops(k) ==   \* where an append of k entries may stop
   {<<"none", 0>>}
   \cup (IF nfaults < MaxFaults /\ k > 0
-        THEN {<<"w", n>> : n \in 0..(2 * k - 1)} \cup {<<"idx", 0>>} ELSE {})
+        \* <<"idx", j>>: the (j+1)-th database update of the call fails.  The code
+        \* at HEAD makes one update per call, so with j = 1 the call succeeds.
+        THEN {<<"w", n>> : n \in 0..(2 * k - 1)} \cup {<<"idx", 0>>, <<"idx", 1>>} ELSE {})
   \cup (IF ncrashes < MaxCrashes /\ k > 0
         THEN {<<"cw", n>> : n \in 1..(2 * k - 1)} \cup {<<"cfile", 0>>} ELSE {})
 
@@ -267,7 +269,7 @@ AppendB(k, st) ==
                 /\ pos' = [pos EXCEPT !.B = r.pos]
                 /\ UNCHANGED <<idx, tipk, up>>
                 /\ Finish(Act("AppendB", batch, 0, st, "err"))
-       [] st[1] = "idx" ->
+       [] st[1] = "idx" /\ st[2] = 0 ->
             LET r == AppendRaw(file.B, pos.B, cells, -1)
             IN  /\ file' = [file EXCEPT !.B = TruncTo(r.file, Len(r.file) - 2 * k)]
                 /\ pos' = [pos EXCEPT !.B = r.pos]
@@ -303,7 +305,7 @@ AppendF(k, st) ==
                 /\ pos' = [pos EXCEPT !.F = r.pos]
                 /\ UNCHANGED <<idx, tipk, up>>
                 /\ Finish(Act("AppendF", batch, 0, st, "err"))
-       [] st[1] = "idx" ->
+       [] st[1] = "idx" /\ st[2] = 0 ->
             LET r == AppendRaw(file.F, pos.F, cells, -1)
             IN  /\ file' = [file EXCEPT !.F = TruncTo(r.file, Len(r.file) - 2 * k)]
                 /\ pos' = [pos EXCEPT !.F = r.pos]
@@ -326,7 +328,7 @@ AppendF(k, st) ==
 \* already shorter than the index says.
 RbStops == {<<"none", 0>>}
            \cup (IF ncrashes < MaxCrashes THEN {<<"c1", 0>>} ELSE {})
-           \cup (IF nfaults < MaxFaults THEN {<<"idx", 0>>} ELSE {})
+           \cup (IF nfaults < MaxFaults THEN {<<"idx", 0>>, <<"idx", 1>>} ELSE {})
 
 \* blockHeaderStore.RollbackBlockHeaders(n)
 RollbackB(n, st) ==
@@ -357,7 +359,7 @@ RollbackB(n, st) ==
                           ELSE idx' = iT /\ ridx' = rT /\ tipk' = tT /\ UNCHANGED file
           /\ up' = 2
           /\ Finish(Act("RollbackB", <<>>, n, st, "crash"))
-     ELSE IF st[1] = "idx"
+     ELSE IF st[1] = "idx" /\ st[2] = 0
      THEN /\ IF fileFirst THEN file' = fT ELSE UNCHANGED file
           /\ UNCHANGED <<idx, ridx, tipk, up>>
           /\ Finish(Act("RollbackB", <<>>, n, st, "err"))
@@ -387,7 +389,7 @@ RollbackF(st) ==
                           ELSE tipk' = tT /\ UNCHANGED file
           /\ up' = 2
           /\ Finish(Act("RollbackF", <<>>, 1, st, "crash"))
-     ELSE IF st[1] = "idx"
+     ELSE IF st[1] = "idx" /\ st[2] = 0
      THEN /\ IF fileFirst THEN file' = fT ELSE UNCHANGED file
           /\ UNCHANGED <<tipk, up>>
           /\ Finish(Act("RollbackF", <<>>, 1, st, "err"))
